@@ -465,7 +465,8 @@ def concurrent_same_document(s, missing):
     return any(m["method"] == "textDocument/diagnostic" for m in ms)
 
 
-KNOWN_HANGS = ("C01:hang-inheritance-cycle", "C01:hang-concurrent-analysis-same-document")
+KNOWN_HANGS = ("C01:hang-inheritance-cycle", "C01:hang-concurrent-analysis-same-document",
+               "C01:response-lost-on-protocol-error")
 
 
 def hang_signature(s, obs, ids):
@@ -502,6 +503,11 @@ def evaluate(s, obs):
                 sig = "C01:unanswered-unsupported-method"
             elif obs.get("busy"):
                 sig = "C01:no-answer-still-busy"
+            elif ending == "shutdown-other" and not obs.get("alive"):
+                # the client broke the protocol (something else than `exit` after `shutdown`): handle_shutdown
+                # returns an error, main() leaves through `?` WITHOUT joining the writer thread, and whatever
+                # was still queued (the shutdown response, late answers of workers) is lost with the process
+                sig = "C01:response-lost-on-protocol-error"
             elif obs.get("alive") or ending != "none":
                 # alive and idle (or stopped) and the request was never answered
                 sig = hang_signature(s, obs, ids) or "C01:hang"
